@@ -296,3 +296,64 @@ Fixpoint model_run (res : list (lhs * fexpr)) (inputs : list ((pid -> bool) * (Z
   | [] => []
   | inp :: rest => model_step res inp regs :: model_run res rest (model_step res inp regs)
   end.
+
+(* ---------- predicates wider than one bit ----------
+   _push_condition:  `if predicate is not otherwise and len(predicate) > 1: raise PyrtlError`
+   (checked when the `with` is ENTERED, whether or not anything is assigned under it).
+   pw p = len(p), the bitwidth of predicate wire p. *)
+Definition pred_too_wide (pw : pid -> Z) (c : cond) : bool :=
+  match c with CP p => pw p >? 1 | COth => false end.
+
+Definition push_w (pw : pid -> Z) (c : cond) (s : st) : option st :=
+  if pred_too_wide pw c then None else push c s.
+
+Section WithWidths.
+  Variable pw : pid -> Z.
+
+  Fixpoint elab_tree_w (t : ctree) (s : st) {struct t} : option st :=
+    match t with
+    | With p body =>
+        match push_w pw (CP p) s with
+        | None => None
+        | Some s1 =>
+            match (fix go (l : list ctree) (s : st) {struct l} : option st :=
+                     match l with
+                     | [] => Some s
+                     | x :: r => match elab_tree_w x s with Some s' => go r s' | None => None end
+                     end) body s1 with
+            | None => None
+            | Some s2 => pop s2
+            end
+        end
+    | Otherwise body =>
+        match push_w pw COth s with
+        | None => None
+        | Some s1 =>
+            match (fix go (l : list ctree) (s : st) {struct l} : option st :=
+                     match l with
+                     | [] => Some s
+                     | x :: r => match elab_tree_w x s with Some s' => go r s' | None => None end
+                     end) body s1 with
+            | None => None
+            | Some s2 => pop s2
+            end
+        end
+    | Assign t r => build (LW t) (PVal r) s
+    | MemAssign m a d e => build (LM m) (PMem a d e) s
+    end.
+
+  Fixpoint elab_forest_w (l : list ctree) (s : st) {struct l} : option st :=
+    match l with
+    | [] => Some s
+    | x :: r => match elab_tree_w x s with Some s' => elab_forest_w r s' | None => None end
+    end.
+
+  Definition elab_w (prog : list ctree) (d : defaults) : option (list (lhs * fexpr)) :=
+    match elab_forest_w prog init_st with
+    | None => None
+    | Some s => Some (finalize d s)
+    end.
+End WithWidths.
+
+(* the three things _finalize can start a select chain from (used by the generated Gen/CondRules.v) *)
+Inductive dsel := DDeclared | DSelf | DZero.
